@@ -74,6 +74,10 @@ U4 == IF Big THEN { "null", "true", "-1", "1e10", "\"\"", "\"a\"", "[1, 2]", "{a
 
 Universe ==
   CASE Uni = "bytes" -> {[kind |-> "bytes", bytes |-> s] : s \in Seqs(IF Big THEN SmallClasses ELSE ByteClasses, MaxLen)}
+    [] Uni = "nest" -> {[kind |-> "nest", shape |-> sh, depth |-> d] :
+                          sh \in {"obj", "arr", "paren", "local", "if", "func", "callarg", "unary", "binary", "index",
+                                  "objcomp", "arrcomp", "error", "assert", "field", "fieldplus", "textual"},
+                          d \in (IF Big THEN {50, 200, 1000, 5000, 30000, 200000} ELSE {200, 3000, 40000})}
     [] Uni = "std0" -> {[kind |-> "std", fn |-> f, args |-> <<>>] : f \in DOMAIN StdTable}
     [] Uni = "std1" -> {[kind |-> "std", fn |-> f, args |-> <<a>>] : f \in Fns(1), a \in U1}
     [] Uni = "std2" -> {[kind |-> "std", fn |-> f, args |-> <<a, b>>] : f \in Fns(2), a \in U2, b \in U2}
